@@ -493,6 +493,7 @@ func (s *stream) GetCheckpointMetric() *CheckpointMetric {
 }
 
 func (s *stream) UnmarkDirtyOffsets() {
+	vhook.At("save.take")
 	s.anyDirtyOffset = false
 	s.dirtyOffsets = wrapper.CreateConcurrentSwissMap[uint16, bool](1024)
 }
